@@ -8,7 +8,11 @@ git -C /repo worktree add -q --detach "$wt" HEAD || exit 2
 export GOPROXY=off GOSUMDB=off GOTOOLCHAIN=local
 demo=$(ls "$d"/demo*_test.go 2>/dev/null | head -1)
 pkgdir="$wt/libvore"
-grep -q "^package main" "$demo" 2>/dev/null && pkgdir="$wt"
+pkg=$(grep -m1 "^package " "$demo" | awk '{print $2}' | sed 's/_test$//')
+case "$pkg" in
+  main) pkgdir="$wt" ;;
+  files|engine|ast|bytecode|ds|algo) pkgdir="$wt/libvore/$pkg" ;;
+esac
 cp "$demo" "$pkgdir/zz_seed_demo_test.go"
 run_demo() { (cd "$pkgdir" && go test -vet=off -count=1 -run 'Seed|Demo' . 2>&1 | tail -3); }
 echo "--- demo without the change:"; run_demo | grep -E "^(ok|FAIL|---)" | head -3
